@@ -123,6 +123,9 @@ def run_one(choices, params):
             prefix = mconf["exposed_prefix"]
             textname = rawname.decode("utf-8") if type(rawname) is bytes and ncls != "badbytes" else rawname
             # ---- build the object and its local twin -------------------------------------------------
+            rkind = shape
+            if shape in ("restricted-ro", "restricted-dflt"):
+                shape = "restricted"
             hooked = shape in ("hooked", "restricted", "service")
             if shape == "hooked":
                 obj = Hooked()
@@ -138,7 +141,15 @@ def run_one(choices, params):
             target = obj
             if shape == "restricted":
                 target = obj
-                obj = rpyc.restricted(target, ["pub", "foo"], ["pub"])
+                if rkind == "restricted-ro":
+                    obj = rpyc.restricted(target, ["pub", "foo"], w.pick(((), [], frozenset())))     # the documented read-only view
+                    wlist = ()
+                elif rkind == "restricted-dflt":
+                    obj = rpyc.restricted(target, ["pub", "foo"])                                    # write list defaults to the read list
+                    wlist = ("pub", "foo")
+                else:
+                    obj = rpyc.restricted(target, ["pub", "foo"], ["pub"])
+                    wlist = ("pub",)
             if shape == "service":
                 class S(rpyc.Service):
                     pass
@@ -239,8 +250,8 @@ def run_one(choices, params):
                     elif got[0] == "ok":
                         raise core.Violation("touched-differs", "%s: restricted view leaked %r" % (label, got))
                 if kind == "set":
-                    if isinstance(hname, str) and hname == "pub":
-                        if after.get("pub") != value:
+                    if isinstance(hname, str) and hname in wlist:
+                        if after.get(hname) != value:
                             raise core.Violation("touched-differs", "%s: permitted write did not happen" % label)
                     elif tchanged:
                         raise core.Violation("effect-on-deny", "%s: restricted view let a write through: %r -> %r" % (label, before, after))
@@ -309,7 +320,7 @@ def run_one(choices, params):
             if after != exp_after and op in ("get", "set", "del"):
                 raise core.Violation("touched-differs", "%s: object state %r, model %r" % (label, after, exp_after))
 
-        shapes = ("name", "twin", "both", "neither", "hooked", "restricted", "service")
+        shapes = ("name", "twin", "both", "neither", "hooked", "restricted", "service", "restricted-ro", "restricted-dflt")
         ops = ("get", "set", "del", "call", "cmp", "ctxexit", "slicing")
         if full:
             for ci in range(len(conns)):
